@@ -390,7 +390,8 @@ class Path:
         finally:
             ob.time_s = time.time() - t0
         memo[key] = ob.status
-        if ob.status == "failed":
+        if ob.status in ("failed", "unknown"):
+            # one counter-model / one timeout per site is enough: the site is not discharged anyway
             self.ex.shared["failed_sites"].add(name)
         if not ob.goal_desc and (ob.status != "discharged" or name not in self.ex.results):
             ob.goal_desc = _short(goal)
@@ -466,26 +467,24 @@ class Path:
                             added += 1
                 if not added:
                     break
+                s.set("timeout", 2500)
                 r2 = s.check()
+                md2 = None
+                if r2 == z3.sat:
+                    md2 = _model_to_dict(s.model())
+                elif r2 != z3.unsat:
+                    rc, mraw = _z3cli_check(s.to_smt2(), self.ex.timeout_ms)
+                    if rc == "unsat":
+                        r2 = z3.unsat
+                    elif rc == "sat":
+                        r2, md2 = z3.sat, {"__raw__": mraw[:4000]}
                 if r2 == z3.unsat:
-                    res, backend, model = "valid", "z3+mbqi", None
+                    res, backend, model = "valid", backend + "+mbqi", None
                 elif r2 == z3.sat:
-                    md = _model_to_dict(s.model())
-                    model = ("; ".join(f"{k}={v}" for k, v in sorted(md.items()) if len(v) < 80)[:2000], md)
+                    model = ("; ".join(f"{k}={v}" for k, v in sorted(md2.items()) if len(v) < 80)[:2000] or md2.get("__raw__", "")[:2000], md2)
                 else:
-                    # could not re-establish the counter-model: fall back to a fresh solver on all assertions
-                    s2 = z3.Solver()
-                    s2.set("timeout", self.ex.timeout_ms)
-                    for a in s.assertions():
-                        s2.add(a)
-                    r3 = s2.check()
-                    if r3 == z3.unsat:
-                        res, backend, model = "valid", "z3+mbqi", None
-                    elif r3 == z3.sat:
-                        md = _model_to_dict(s2.model())
-                        model = ("; ".join(f"{k}={v}" for k, v in sorted(md.items()) if len(v) < 80)[:2000], md)
-                    else:
-                        res, backend, model = "unknown", "z3+mbqi", None
+                    # the counter-model could not be re-established after instantiating at its integer values
+                    res, backend, model = "unknown", backend + "+mbqi", None
         finally:
             s.pop()
         ob.backend = backend
@@ -594,8 +593,15 @@ def solve_valid_inc(s, goal, timeout_ms):
             s3.add(a)
         if s3.check() != z3.unsat:
             return "invalid", "z3-cone", (ms, md)
+    smt2 = s.to_smt2()
+    # a second, independent z3 build (Debian's 4.8.12 CLI): different heuristics decide many queries the 5.1 API leaves open
+    r1, m1 = _z3cli_check(smt2, timeout_ms)
+    if r1 == "unsat":
+        return "valid", "z3-4.8.12(cli)", None
+    if r1 == "sat":
+        return "invalid", "z3-4.8.12(cli)", (m1[:2000], {"__raw__": m1[:4000]})
     try:
-        r2 = _cvc5_check(s.to_smt2(), timeout_ms)
+        r2 = _cvc5_check(smt2, timeout_ms)
     except Exception:
         r2 = "unknown"
     if r2 == "unsat":
@@ -730,6 +736,27 @@ def solve_valid(hyps, goal, timeout_ms):
     if r2 == "sat":
         return "invalid", "cvc5", ("(cvc5 sat; no model extracted)", {})
     return "unknown", "z3+cvc5", None
+
+
+def _z3cli_check(smt2: str, timeout_ms: int):
+    exe = "/usr/bin/z3"
+    if not os.path.exists(exe):
+        return "unknown", ""
+    with tempfile.NamedTemporaryFile("w", suffix=".smt2", delete=False) as f:
+        f.write(smt2 + "\n(get-model)\n")
+        fn = f.name
+    try:
+        p = subprocess.run([exe, f"-T:{max(1, timeout_ms // 1000)}", fn], capture_output=True, text=True, timeout=timeout_ms / 1000 + 5)
+        out = p.stdout.strip()
+        head = out.splitlines()[0].strip() if out else "unknown"
+        if head in ("sat", "unsat"):
+            model = " ".join(out.split()[1:]) if head == "sat" else ""
+            return head, model
+        return "unknown", ""
+    except Exception:
+        return "unknown", ""
+    finally:
+        os.unlink(fn)
 
 
 def _cvc5_check(smt2: str, timeout_ms: int) -> str:
